@@ -86,7 +86,9 @@ PlainLegit == [scheme |-> "https", host |-> "exact", port |-> "none", path |-> "
 G_C13_Https(u, o)   == o.redirected => u.scheme \in {"https", "HTTPS"}
 \* a bare "?" carries no query string
 G_C13_NoQuery(u, o) == o.redirected => u.query # "query"
-G_C13_NoDotDot(u, o) == o.redirected => u.path # "dotdot"
+\* a percent-encoded dot is a dot (RFC 3986 unreserved; WHATWG "double-dot path segment"): %2e%2e and .%2E are parent-directory segments too
+DotDotPaths == {"dotdot", "encdotdot", "mixdotdot"}
+G_C13_NoDotDot(u, o) == o.redirected => u.path \notin DotDotPaths
 G_C13_Host(u, c, o) == (o.redirected /\ c \in {"domains", "both"}) => BrowserLegit(u)
 G_C13_Pattern(r, o) == (o.redirected /\ r.client \in {"patterns", "both"} /\ r.site # "cors") => PatternMatches(r.url)
 G_C13_KnownClient(c, o) == o.redirected => c \notin {"unknown", "neither"}
@@ -98,7 +100,7 @@ C13Guards(r, o) == {<<"G_C13_Https", G_C13_Https(r.url, o)>>, <<"G_C13_NoQuery",
                     <<"G_C13_LegitimateWorks", (r.url = PlainLegit /\ (r.client \in {"domains", "both"} \/
                                                   (r.client = "patterns" /\ r.site # "cors"))) => o.redirected>>}
 InC13(r) == \E sc \in {"https", "http", "HTTPS", "javascript", "none", "schemerel"}, h \in HostClasses,
-               p \in {"none", "443", "8443"}, pa \in {"plain", "empty", "dotdot", "encdotdot", "double"},
+               p \in {"none", "443", "8443"}, pa \in {"plain", "empty", "dotdot", "encdotdot", "mixdotdot", "double"},
                q \in {"none", "query", "emptyq"}, k \in Quirks, c \in ClientCfgs, site \in {"validator", "authorize", "cors"} :
                /\ site = "cors" => (pa = "plain" /\ q = "none" /\ k \in {"none", "userinfo_domain", "userinfo_pw"})
                /\ r = [url |-> [scheme |-> sc, host |-> h, port |-> p, path |-> pa, query |-> q, quirk |-> k],
